@@ -62,6 +62,8 @@ def worlds(tier):
 INT_INNER = [(), (0,), (0, 1), (2, 2), (1, 0), 0, 2, 1]      # plain values as elements, falsy ones and scalars included
 IKINDS = {
     "ivalue": None,
+    "ivalue_setof": None,          # the concatenated value selected through set_of([...]) instead of entity(...)
+    "iin_sel": ("in", A(M, "p"), CC),   # ... and selected alongside the outer variable
     "iin": ("in", A(M, "p"), CC),
     "ihas": ("has", CC, A(M, "p")),
     "inot_in": ("not", ("in", A(M, "p"), CC)),
@@ -110,6 +112,10 @@ def query_of(case):
     combo, k, caching = case
     if k == "ivalue":
         return ("Q", "an", "entity", CC, (), (VX,))
+    if k == "ivalue_setof":
+        return ("Q", "an", "setof", (CC,), (), (VX,))
+    if k == "iin_sel":
+        return ("Q", "an", "setof", (M, CC), (IKINDS[k],), (VM, VX))
     if k in IKINDS:
         return ("Q", "an", "entity", M, (IKINDS[k],), (VM, VX))
     if k == "value":
@@ -129,9 +135,16 @@ def run_case(case, inst):
         try:
             obj, b = Q.build(q, world, inst)
             got = list(obj.evaluate())
+            if k == "ivalue_setof":
+                got = [r[b.sel[q][0]] for r in got]
+            elif k == "iin_sel":
+                if any(list(r[b.sel[q][1]]) != combined for r in got):
+                    got = ("EXC", "WrongConcatenatedValue", repr([r[b.sel[q][1]] for r in got])[:120])
+                else:
+                    got = [r[b.sel[q][0]] for r in got]
         except Exception as e:
             got = exc_obs(e)
-        if k in ("value", "ivalue"):
+        if k in ("value", "ivalue", "ivalue_setof"):
             return got, combined, None
         neg = "not" in k or k.startswith("inv")
         if k in IKINDS:
@@ -144,7 +157,7 @@ def run_case(case, inst):
     res = {"ok": True, "transitions": 1, "tags": [f"kind={k}", f"parents={len(combo)}", f"caching={'on' if caching else 'off'}"]
            + (["all_empty"] if combo and all(i == () for i in combo) else []) + (["no_parent"] if not combo else []),
            "outcome": f"{k}:{len(exp)}"}
-    if k == "ivalue":
+    if k in ("ivalue", "ivalue_setof"):
         res["nontrivial"] = len(exp) > 0
         if is_exc(got):
             res.update(ok=False, sig=f"ivalue:exc:{got[1]}", obs=got, exp=[repr(exp)])
